@@ -123,6 +123,36 @@ pub fn cases<T: KS + Send + Sync>(out: &mut Out, rng0: &mut Rng, tier: &Tier, wh
         if which == "C01" {
             out.case("c.compress", l(vec![nu(k), st.clone(), n(mode), l(order.clone())]), opt(g1v.clone()));
         }
+        // the two CompressionSpec implementations the crate ships: SimpleCompress (always join; the same reduction as
+        // PaySpec) is the model with mode 0; ScmapCompress (join = payload equality, payload kept) is the model with
+        // mode 1 on the colours alone
+        {
+            let simple = SimpleCompress::new(|mut d: Pay, o: &Pay| {
+                d.1.extend(o.1.iter().cloned());
+                d
+            });
+            let sref = &simple;
+            let g0 = guard(std::panic::AssertUnwindSafe(move || compress_kmers_with_hash(stranded, sref, hh)));
+            out.case("c.compress", l(vec![nu(k), st.clone(), n(0u8), l(order.clone())]), opt(g0.as_ref().map(base_nodes_v)));
+            let hash_c: BoomHashMap2<T, Exts, u8> = BoomHashMap2::new(
+                tbl.iter().map(|x| x.0).collect(),
+                tbl.iter().map(|x| (x.1).0).collect(),
+                tbl.iter().map(|x| ((x.1).1).0).collect(),
+            );
+            let hc = &hash_c;
+            let gs = guard(std::panic::AssertUnwindSafe(move || {
+                compress_kmers_with_hash(stranded, &ScmapCompress::<u8>::new(), hc)
+            }));
+            let gsv = gs.as_ref().map(|g| {
+                l((0..g.len())
+                    .map(|i| node_v(&g.sequences.get(i).bytes(), g.exts[i], &(g.data[i], vec![])))
+                    .collect())
+            });
+            out.case("c.compress_scmap", l(vec![nu(k), st.clone(), l(order.clone())]), opt(gsv.clone()));
+            if let Some(g) = &gsv {
+                out.case("chk.c02p", l(vec![nu(k), st.clone(), n(1u8), l(order.clone()), g.clone()]), b(true));
+            }
+        }
         // the hypotheses of the theorems (tbl_ok, exts_sym; exts_closed) hold on this table
         if which == "C01" {
             out.case("chk.c01.hyp", l(vec![nu(k), st.clone(), l(order.clone())]), l(vec![b(true), b(true)]));
